@@ -277,12 +277,18 @@ theorem broadcast_conservation (c : Chan) (d : Payload) (size : Nat) :
     · simp [h1, h2]; omega
   · simp [h1]; omega
 
-/-- **oversize_reaches_every_peer_or_counts**: the head of the oversize queue is sent to every
-    current peer exactly once (one reliable send per peer), in queue order. -/
+/-- **oversize_reaches_every_peer_or_counts**: when the sender goroutine is free, the head of the
+    oversize queue is sent to every current peer exactly once (one reliable send per peer), in
+    queue order; while it is busy nothing is taken. -/
 theorem oversize_reaches_every_peer (c : Chan) (p : Part) (rest : List Part) (peers : List String)
-    (h : c.queue = p :: rest) :
-    (drainOne c peers).2 = peers.map (fun n => (n, p)) ∧ (drainOne c peers).1.queue = rest := by
-  simp [drainOne, h]
+    (h : c.queue = p :: rest) (hfree : c.inflight = none) :
+    (take c peers).2 = peers.map (fun n => (n, p)) ∧ (take c peers).1.queue = rest ∧
+    (take c peers).1.inflight = some p := by
+  simp [take, h, hfree]
+
+theorem busy_takes_nothing (c : Chan) (q : Part) (peers : List String) (h : c.inflight = some q) :
+    take c peers = (c, []) := by
+  simp [take, h]
 
 /-! ### F5: the pinned `MergeRemoteState` returns at the first failing part -/
 
